@@ -133,12 +133,16 @@ Row(fmt) ==
            Ct("lru_tail", {"zero", "typ", "over", "big", "max"}, 20, 0, "-"),
            Ct("e0_prev", {"zero", "typ", "over", "big", "max"}, 20, 0, "-"),
            Ct("e0_next", {"zero", "typ", "over", "big", "max"}, 20, 0, "-")>>
+    [] fmt = "blte_enc_header" ->
+         <<En("key_name_size", {"zero", "typ", "max"}, {"zero", "typ", "max"}),
+           En("iv_size", {"zero", "typ", "max"}, {"zero", "typ", "max"}),
+           EnD("enc_type", {"zero", "typ", "n:65", "over", "max"}, {"typ", "n:65"}, "F02o")>>
     [] fmt = "shmem" ->
          <<En("version", {"zero", "typ", "n:4", "n:5", "max"}, {"typ", "n:4", "n:5"}),
            Ct("max_slots", C32, 8, 8, "F02n"), Ct("direct_max_slots", C32, 8, 8, "F02n")>>
     [] OTHER -> <<>>
 
-Heads == {"blte", "encoding", "archive_index", "root", "install", "download", "size", "tvfs",
+Heads == {"blte", "blte_enc_header", "encoding", "archive_index", "root", "install", "download", "size", "tvfs",
           "patch_archive", "patch_index", "zbsdiff", "local_idx", "lru", "shmem"}
 Decomp(fmt) == fmt \in {"blte_decompress", "encoding_blte", "tvfs_blte", "zbsdiff_apply"}
 
@@ -180,6 +184,8 @@ StepR(st, f, vec, fmt, kd) ==
                THEN {Fail(st, "panic")} ELSE {})
          \cup (IF f.dev = "F02b" /\ "F02b" \in kd /\ SlicePanics(vec) THEN {Fail(st, "panic")} ELSE {})
          \cup (IF f.dev = "F02d" /\ "F02d" \in kd /\ ArithPanics(vec) THEN {Fail(st, "panic")} ELSE {})
+         \cup (IF f.dev = "F02o" /\ "F02o" \in kd /\ c \notin f.acc
+               THEN {Fail(st, "panic")} ELSE {})
     [] f.k = "count" ->
          LET n    == Claim(c, f.unit)
              fits == n <= st.rem \div f.unit
@@ -285,8 +291,14 @@ DevExplains(fid, e) ==
     [] fid = "F02n" ->   \* shmem PID tracking: two arrays of max_slots u32
          /\ e.fmt = "shmem" /\ Symptom(e) = "alloc"
          /\ (Claims(e, "max_slots", 8) \/ Claims(e, "direct_max_slots", 8))
+    [] fid = "F02o" ->   \* BLTE EncryptedHeader: encryption-type byte other than 'S' / 'A' reaches an expect()
+         /\ e.fmt = "blte_enc_header" /\ Symptom(e) = "panic" /\ e.mc = "valid encryption type byte"
+         /\ Has(e, "enc_type") /\ ~ValEQ(e.h["enc_type"], 83) /\ ~ValEQ(e.h["enc_type"], 65)
     [] OTHER -> FALSE
 
-AllFindings == {"F02a", "F02b", "F02c", "F02d", "F02e", "F02f", "F02g", "F02h", "F02i", "F02j", "F02k",
-                "F02l", "F02m", "F02n"}
+FindingOrder == <<"F02a", "F02b", "F02c", "F02d", "F02e", "F02f", "F02g", "F02h", "F02i", "F02j", "F02k",
+                  "F02l", "F02m", "F02n", "F02o", "F02p", "F02q", "F02r">>
+\* deterministic choice of the finding an event is credited to (TLC does not order strings)
+FirstOf(S) == FindingOrder[CHOOSE i \in 1..Len(FindingOrder) :
+                             FindingOrder[i] \in S /\ \A j \in 1..(i - 1) : FindingOrder[j] \notin S]
 =============================================================================
